@@ -15,7 +15,7 @@ LEVEL = "exploration"
 RULE = (
     "seeded histories of 2-8 operations on one Force engine: nodes(A), compute, re-compute, set_options(delta), compute, nodes(B), compute, "
     "with label objects that were laid out before by another engine/configuration (stale position, layer, stubs, overlap counts) and with "
-    "permuted input lists; label sets from Wlayout with the proviso enforced (labels sharing a position share a width). After every compute() "
+    "permuted input lists and with widths/positions of the laid-out label objects edited in place; label sets from Wlayout with the proviso enforced (labels sharing a position share a width). After every compute() "
     "the map (idealPos,width) -> multiset of (layerIndex,currentPos) must equal that of a fresh engine with the accumulated options on fresh, "
     "sorted nodes. Non-trivial = history with a recompute / stale nodes / permutation / option change whose final layout has >= 2 layers or "
     "moved a label; distinct = distinct history."
@@ -30,7 +30,7 @@ def plan(tier, seed):
 
 
 def floors(tier):
-    return {"evaluations": 400, "strata": ["recompute", "stale-nodes", "permutation", "option-change", "second-label-set", "subset-of-earlier-set", "hash-seed"],
+    return {"evaluations": 400, "strata": ["recompute", "stale-nodes", "permutation", "option-change", "second-label-set", "subset-of-earlier-set", "edited-in-place", "hash-seed"],
             "events": {"Force.compute": 1500}, "distinct_nontrivial": 200}
 
 
@@ -98,11 +98,37 @@ def gen_history(rng):
             # a sub-multiset of A, as the very objects that were laid out as part of A before
             ops.append(["nodes", "A-sub", "same-objects"])
             ops.append(["compute"])
+        elif r < 0.9:
+            # widths / positions of the laid-out label objects edited in place, same objects handed over again (or not)
+            ops.append(["edit-in-place", rng.randrange(10**6), rng.random() < 0.7])
+            ops.append(["compute"])
         else:
             ops.append(["permute-in-place"])
             ops.append(["compute"])
     stale_opts = dict(WL.gen_case(rng, max_n=5)[1])
     return {"labelsA": labelsA, "labelsB": labelsB, "options": opts, "ops": ops, "stale_options": stale_opts, "perm_seed": rng.randrange(10**6)}
+
+
+def edit_labels(labels, er):
+    """An in-place edit of the current labels (values only): widths of whole position groups change (so the proviso keeps
+    holding) and one position group may move to a position nobody else has."""
+    out = [dict(l) for l in labels]
+    groups = {}
+    for i, l in enumerate(out):
+        groups.setdefault(l["pos"], []).append(i)
+    keys = sorted(groups)
+    for p in keys:
+        if er.random() < 0.35:
+            w = max(1.0, out[groups[p][0]]["w"] * er.choice([0.5, 1.5, 2.0, 4.0]))
+            for i in groups[p]:
+                out[i]["w"] = w
+    if er.random() < 0.5:
+        p = er.choice(keys)
+        q = p + er.choice([-35.0, 12.5, 60.0])
+        if q not in groups:
+            for i in groups[p]:
+                out[i]["pos"] = q
+    return out
 
 
 def run_history(ctx, mon, h):
@@ -111,8 +137,13 @@ def run_history(ctx, mon, h):
     from labella.force import Force
 
     prng = random.Random(h["perm_seed"])
-    sets = {"A": h["labelsA"], "B": h["labelsB"], "A-sub": h["labelsA"][::2]}
-    objs = {}  # set name -> last node objects used
+    sets = {"A": h["labelsA"], "B": h["labelsB"]}
+    objs = {}  # set name -> node objects last used for it (the engine may reorder a list it was given)
+    lab_of = {}  # id(node) -> the label values the caller gave that object
+
+    def labels_of(nodes):
+        return [lab_of[id(nd)] for nd in nodes]
+
     acc = dict(h["options"])
     f = Force(dict(h["options"]))
     cur = None
@@ -121,21 +152,24 @@ def run_history(ctx, mon, h):
     ncomputes = 0
     final_nontrivial = False
     try:
-        for op in h["ops"]:
+        for opi, op in enumerate(h["ops"]):
             if op[0] == "nodes":
                 name, mode = op[1], op[2]
-                labels = sets[name]
-                if name == "A-sub" and "A" in objs:
-                    # objects of A in A's construction order: every other one
-                    byid = {nd.data[1]: nd for nd in objs["A"]}
-                    nodes = [byid[i] for i in range(0, len(h["labelsA"]), 2)]
+                if name == "A-sub":
+                    if "A" not in objs:
+                        continue
+                    # every other object of A, as laid out before as part of A
+                    nodes = objs["A"][::2]
                     feats.add("stale-nodes")
                     feats.add("subset-of-earlier-set")
                 elif mode == "same-objects" and name in objs:
                     nodes = objs[name]
                     feats.add("stale-nodes")
                 else:
+                    labels = [dict(l) for l in sets[name]]
                     nodes = WL.make_nodes(labels)
+                    for nd, l in zip(nodes, labels):
+                        lab_of[id(nd)] = l
                     if "stale" in mode:
                         # lay these very objects out with another engine / configuration first
                         g = Force(dict(h["stale_options"]))
@@ -146,6 +180,9 @@ def run_history(ctx, mon, h):
                     if "permuted" in mode:
                         prng.shuffle(nodes)
                         feats.add("permutation")
+                ws = {}
+                if any(ws.setdefault(l["pos"], l["w"]) != l["w"] for l in labels_of(nodes)):
+                    continue  # edits of a subset broke the proviso for this set: not a history the rule covers
                 f.nodes(nodes)
                 objs[name] = nodes
                 if cur is not None and name != cur:
@@ -161,28 +198,36 @@ def run_history(ctx, mon, h):
                 f.nodes(nodes)
                 objs[cur] = nodes
                 feats.add("permutation")
+            elif op[0] == "edit-in-place":
+                # the caller changes width / position of the label objects the engine already laid out, then hands
+                # the same objects to the same engine again
+                for nd, l in zip(objs[cur], edit_labels(labels_of(objs[cur]), random.Random(op[1]))):
+                    lab_of[id(nd)] = l
+                    nd.width = l["w"]
+                    nd.idealPos = l["pos"]
+                if op[2]:
+                    f.nodes(list(objs[cur]))
+                feats.add("edited-in-place")
             elif op[0] == "compute":
-                if ncomputes and h["ops"][h["ops"].index(op) - 1][0] == "compute":
+                if cur is None:
+                    continue
+                if ncomputes and h["ops"][opi - 1][0] == "compute":
                     feats.add("recompute")
                 f.compute()
                 ncomputes += 1
                 got = result_map(objs[cur])
                 mon.drain()
-                exp = reference(sets[cur], acc)
+                exp = reference(labels_of(objs[cur]), acc)
                 mon.drain()
                 if got != exp:
                     diff = [(k, got.get(k), exp.get(k)) for k in sorted(set(got) | set(exp), key=repr) if got.get(k) != exp.get(k)]
-                    probs.append({"after_ops": h["ops"][: h["ops"].index(op) + 1][-4:], "n_differences": len(diff),
+                    probs.append({"after_ops": h["ops"][: opi + 1][-4:], "n_differences": len(diff),
                                   "first": {"label(idealPos,width)": diff[0][0], "history": diff[0][1], "fresh": diff[0][2]}})
                     break
                 final_nontrivial = any(li > 0 for v in got.values() for li, _ in v) or any(p != k[0] for k, v in got.items() for _, p in v)
     except Exception as e:
         probs.append({"raised": "%s: %s" % (type(e).__name__, e)})
-    # consecutive computes
-    seq = [o[0] for o in h["ops"]]
-    if any(a == "compute" and b == "compute" for a, b in zip(seq, seq[1:])):
-        feats.add("recompute")
-    primary = next((x for x in ("stale-nodes", "permutation", "option-change", "recompute", "second-label-set") if x in feats), "plain")
+    primary = next((x for x in ("edited-in-place", "stale-nodes", "permutation", "option-change", "recompute", "second-label-set") if x in feats), "plain")
     if probs:
         ctx.judge(primary, VIOLATED, h, finding=probs, key="history-dependent" if "raised" not in probs[0] else "raised")
     else:
